@@ -140,14 +140,15 @@ def auxOnMesh (f : Fld) (g : Fld) : M (NDA (List Rat)) :=
     | .error e => .error e
     | .ok h => .ok h.data
 
-/-- `_filter_values`: which cells keep their value (`true`) and which become NaN -/
+/-- `_filter_values`: which cells keep their value (`true`) and which become NaN: zero in the
+filter field -> NaN, and (whatever the filter) invalid cells of the plotted field -> NaN -/
 def filterKeep (f : Fld) (flt : Fld) : M (NDA Bool) :=
   if flt.nvdim ≠ 1 then .error .value
   else if flt.mesh.region.ndim ≠ 2 then .error .value
   else
     match auxOnMesh f flt with
     | .error e => .error e
-    | .ok a => .ok ⟨f.mesh.n, fun i => !decide ((a.get i).getD 0 0 = 0)⟩
+    | .ok a => .ok ⟨f.mesh.n, fun i => !decide ((a.get i).getD 0 0 = 0) && f.valid.get i⟩
 
 /-- the filter actually used by `scalar`, `contour`, `lightness` -/
 def filterOf (f : Fld) (o : Opts) : Fld := o.filter.getD (validAsField f)
@@ -391,15 +392,12 @@ def lightCore (f : Fld) (o : Opts) (hue : List Nat → Hue) (dflt : NDA Rat) (fl
         match filterKeep f flt with
         | .error e => .error e
         | .ok keep =>
-          -- `rgb.squeeze()` drops single-cell axes, the Boolean filter index then fails
-          if f.mesh.n.any (· = 1) then .error .index
-          else
-            match axisLabels f.mesh.region m with
-            | .error e => .error e
-            | .ok lab =>
-              .ok [.imshowHL (imgOf f.mesh.n keep fun i =>
-                      (hue i, normalise (ndaMin ⟨f.mesh.n, l.get⟩) (ndaMax ⟨f.mesh.n, l.get⟩)
-                                (o.clim.getD (0, 1)) (l.get i))) "lower" ext, lab]
+          match axisLabels f.mesh.region m with
+          | .error e => .error e
+          | .ok lab =>
+            .ok [.imshowHL (imgOf f.mesh.n keep fun i =>
+                    (hue i, normalise (ndaMin ⟨f.mesh.n, l.get⟩) (ndaMax ⟨f.mesh.n, l.get⟩)
+                              (o.clim.getD (0, 1)) (l.get i))) "lower" ext, lab]
 
 /-- in-plane component indices `(x, y)` for `plot_util.inplane_angle(field, x, y)` -/
 def angleComps (f : Fld) : M (Nat × Nat) :=
